@@ -43,3 +43,23 @@ Print Assumptions C16_text_injective.
 Example C16_text_example : Text.print [85; 76]%N [0; 42; 1073479681]%N
   = [123; 32; 48; 85; 76; 44; 32; 52; 50; 85; 76; 44; 32; 49; 48; 55; 51; 52; 55; 57; 54; 56; 49; 85; 76; 32; 125]%N.   (* "{ 0UL, 42UL, 1073479681UL }" *)
 Proof. vm_compute. reflexivity. Qed.
+
+(* THE RAW SERIALISERS OF THE SOURCE: poly::serialize_manually / deserialize_manually, read from the source on every run (each is one stream call,
+   ostream::write / istream::read, on the bytes of _data with N * sizeof(T) bytes, N = Degree * NbModuli checked in the AST; IoSem.v gives the
+   calls their byte-level meaning on a little-endian machine): what the first writes is Serial.serialize of the stored limbs -- exactly N * wb
+   bytes appended to the stream -- and the second reads it back into any polynomial, consuming exactly those bytes and reporting success. *)
+From NTT Require IoSem SerialSrc.
+From NTT.gen Require GenLoop.
+Theorem C16_source_round_trip : forall n nm data old rest, length data = (nm * n)%nat -> length old = (nm * n)%nat ->
+  (Forall (fun x => 0 <= x < 256 ^ 2) data -> exists bs, GenLoop.gen_serialize_u16 (Z.of_nat n) (Z.of_nat nm) data nil = Some bs /\ length bs = (nm * n * 2)%nat /\ GenLoop.gen_deserialize_u16 (Z.of_nat n) (Z.of_nat nm) old (bs ++ rest) = Some (data, rest, true)) /\
+  (Forall (fun x => 0 <= x < 256 ^ 4) data -> exists bs, GenLoop.gen_serialize_u32 (Z.of_nat n) (Z.of_nat nm) data nil = Some bs /\ length bs = (nm * n * 4)%nat /\ GenLoop.gen_deserialize_u32 (Z.of_nat n) (Z.of_nat nm) old (bs ++ rest) = Some (data, rest, true)) /\
+  (Forall (fun x => 0 <= x < 256 ^ 8) data -> exists bs, GenLoop.gen_serialize_u64 (Z.of_nat n) (Z.of_nat nm) data nil = Some bs /\ length bs = (nm * n * 8)%nat /\ GenLoop.gen_deserialize_u64 (Z.of_nat n) (Z.of_nat nm) old (bs ++ rest) = Some (data, rest, true)).
+Proof. exact SerialSrc.source_serial_round_trip. Qed.
+Print Assumptions C16_source_round_trip.
+Theorem C16_source_is_model : forall n nm data s, length data = (nm * n)%nat ->
+  (forall out, GenLoop.gen_serialize_u16 (Z.of_nat n) (Z.of_nat nm) data out = Some (out ++ serialize 2 data) /\ GenLoop.gen_serialize_u32 (Z.of_nat n) (Z.of_nat nm) data out = Some (out ++ serialize 4 data) /\
+               GenLoop.gen_serialize_u64 (Z.of_nat n) (Z.of_nat nm) data out = Some (out ++ serialize 8 data)) /\
+  (let r := fun wb => Some (let '(ws, rest, ok) := deserialize wb (nm * n) s in ((if ok then ws else overlay wb data s), rest, ok)) in
+   GenLoop.gen_deserialize_u16 (Z.of_nat n) (Z.of_nat nm) data s = r 2%nat /\ GenLoop.gen_deserialize_u32 (Z.of_nat n) (Z.of_nat nm) data s = r 4%nat /\ GenLoop.gen_deserialize_u64 (Z.of_nat n) (Z.of_nat nm) data s = r 8%nat).
+Proof. exact (fun n nm data s Hd => conj (fun out => SerialSrc.source_serialize n nm data out Hd) (SerialSrc.source_deserialize n nm data s Hd)). Qed.
+Print Assumptions C16_source_is_model.
